@@ -108,3 +108,6 @@ package channel
 //@   loop 0 modifies channels
 //@   loop 0 invariant len(*channels) == old(len(*channels)) && len(storageToDelete) == len(keysToDelete)
 //@   loop 0 invariant forall j int :: 0 <= j && j < len(keysToDelete) ==> storageToDelete[j] == keysToDelete[j].StorageKey()
+
+//@ # the distinct leaseholders of a key list are a deterministic function of the list
+//@ pure func (k Keys) UniqueLeaseholders() []node.Key
